@@ -14,11 +14,10 @@ pub const PIN_FILES: &[(&str, Option<&[&str]>)] = &[
   ("derive/src/traits.rs", None),
   ("derive/src/lib.rs", None),
   ("src/offset_of.rs", None),
-  ("src/lib.rs", Some(&["write_zeroes", "fill_zeroes", "zeroed"])),
+  ("src/lib.rs", Some(&["zeroed"])),
   ("src/zeroable.rs", Some(&["trait Zeroable::zeroed"])),
   ("src/allocation.rs", Some(&[
     "zeroed_rc", "zeroed_rc_slice", "zeroed_arc", "zeroed_arc_slice",
-    "box_bytes_of", "from_box_bytes", "try_from_box_bytes",
     "impl sealed::BoxBytesOf for str::box_bytes_of", "impl From<Box<T>> for BoxBytes::from",
   ])),
 ];
